@@ -582,7 +582,7 @@ func main() {
 		passes["fine-granularity-bound-1"] = runPass(r, "fine-b1", false, 1, 420*time.Second, fail)
 		passes["coarse-granularity-bound-2"] = runPass(r, "coarse-b2", true, 2, 600*time.Second, fail)
 	} else {
-		passes["coarse-granularity-bound-1"] = runPass(r, "coarse-b1", true, 1, 240*time.Second, fail)
+		passes["coarse-granularity-bound-1"] = runPass(r, "coarse-b1", true, 1, 480*time.Second, fail)
 	}
 	r.Set("passes", passes)
 	r.Set("instrumented", instr)
